@@ -1037,6 +1037,13 @@ func (r *Raft) sendAppendEntries(id string, address string, numResponses *int) {
 		return
 	}
 
+	// Ignore the response if the request was sent in an earlier term. This node may have
+	// lost and regained leadership while the request was in flight, in which case the
+	// response says nothing about the log or the leadership of the current term.
+	if request.Term != r.currentTerm {
+		return
+	}
+
 	// If the majority of cluster acknowledges the request, this node is a legitimate leader.
 	// Try to apply pending read-only operations.
 	if numResponses != nil {
